@@ -84,12 +84,19 @@ def strategy(tier):
   call = c14._call().flatmap(lambda c: st.sampled_from(['reply', 'reply', 'reply_ctx', 'never']).map(lambda b: dict(c, behave=b)))
   hello = st.fixed_dictionaries({'m': st.just('hi'), 'args': st.tuples(c14.TEXT).map(list), 'outcome': st.just('value'),
                                  'ret': c14.TEXT, 'kw': st.booleans(), 'behave': st.sampled_from(['reply', 'reply_ctx', 'never'])})
+  pingrace = st.fixed_dictionaries({
+      'kind': st.just('pingrace'), 'lead_ms': st.sampled_from([50, 300, 900]), 'hold_ms': st.sampled_from([1000, 2500, 4000]),
+      'cut': st.sampled_from([1, 5, 30, 100]), 'size': st.sampled_from([200, 3000, 70000])})
+  return weighted((12, _frames_or_early(key, call, hello)), (1, pingrace))
+
+
+def _frames_or_early(key, call, hello):
   return st.fixed_dictionaries({
       'kind': st.sampled_from(['frames', 'frames', 'frames', 'early']),
       'connect_ms': st.sampled_from([0, 2, 5]),
       'stagger_ms': st.lists(st.sampled_from([0, 0, 1, 3, 6]), min_size=1, max_size=4),
       'svc': st.sampled_from(['rich', 'rich', 'hello']),
-      'client_id': st.one_of(st.none(), st.text(alphabet='abcdefgh-_.0123', min_size=1, max_size=12),
+      'client_id': st.one_of(st.none(), st.just('DEFAULT'), st.text(alphabet='abcdefgh-_.0123', min_size=1, max_size=12),
                              st.text(min_size=1, max_size=10), st.text(alphabet='sérvice€\U0001F600', min_size=1, max_size=6)),
       'props': st.lists(st.tuples(key, CTX_TEXT).map(list), max_size=4, unique_by=lambda kv: kv[0]),
       'timeout_ms': st.sampled_from([None, 50, 80, 1000, 10000]),
@@ -182,7 +189,9 @@ def _exec_frames(plan):
   Server(net, ('127.0.0.1', PORT), peer)
 
   chain = [TimeoutSinkProvider()]
-  if plan['client_id'] is not None:
+  if plan['client_id'] == 'DEFAULT':
+    chain.append(ClientIdInterceptorSink.Builder())      # no argument: the documented default id, whatever other clients of this process were given
+  elif plan['client_id'] is not None:
     chain.append(ClientIdInterceptorSink.Builder(client_id=plan['client_id']))
   chain.append(_PropsSink.Builder(props=tuple((k, v) for k, v in plan['props'])))
   chain.append(ThriftMuxMessageSerializerSink.Builder())
@@ -196,7 +205,7 @@ def _exec_frames(plan):
   advance(0.01)
   want_ctx = dict((k, v) for k, v in plan['props'])
   if plan['client_id'] is not None:
-    want_ctx[CLIENT_ID_KEY] = plan['client_id']
+    want_ctx[CLIENT_ID_KEY] = 'client' if plan['client_id'] == 'DEFAULT' else plan['client_id']
   nt = set()
   for i, c in enumerate(calls):
     cur['i'] = i
@@ -313,7 +322,9 @@ def _exec_early(plan):
   srv = Server(net, ('127.0.0.1', PORT), peer)
   srv.default_connect = ['accept', plan.get('connect_ms', 5) / 1000.0]
   chain = [TimeoutSinkProvider()]
-  if plan['client_id'] is not None:
+  if plan['client_id'] == 'DEFAULT':
+    chain.append(ClientIdInterceptorSink.Builder())      # no argument: the documented default id, whatever other clients of this process were given
+  elif plan['client_id'] is not None:
     chain.append(ClientIdInterceptorSink.Builder(client_id=plan['client_id']))
   chain.append(_PropsSink.Builder(props=tuple((k, v) for k, v in plan['props'])))
   chain.append(ThriftMuxMessageSerializerSink.Builder())
@@ -324,7 +335,7 @@ def _exec_early(plan):
   top.Open()
   want_ctx = dict((k, v) for k, v in plan['props'])
   if plan['client_id'] is not None:
-    want_ctx[CLIENT_ID_KEY] = plan['client_id']
+    want_ctx[CLIENT_ID_KEY] = 'client' if plan['client_id'] == 'DEFAULT' else plan['client_id']
   results = []
 
   def submit(i, c):
@@ -374,8 +385,76 @@ def _exec_early(plan):
   return set(['callers during the handshake']) if len(calls) >= 2 else set()
 
 
+def _exec_pingrace(plan):
+  """A long-lived connection: the periodic keep-alive ping falls due while a large frame is part-way through a
+  blocked socket write.  The byte stream must still be a sequence of whole frames."""
+  import random as _random
+  import scales.thriftmux.sink as _tms
+  net = SimNet()
+  net.install()
+  iface, pf = Hello.Iface, Hello.Processor
+  peer = MuxPeer(pf, lambda method, args: 'pong', lambda k, frame, method, args: ['reply', 0.002])
+  Server(net, ('127.0.0.1', PORT), peer)
+  drawn = []
+
+  class _Rnd(object):
+    def randint(self, a, b):
+      v = _random.randint(a, b)
+      drawn.append(((a, b), loop.now(), v))
+      return v
+
+    def __getattr__(self, name):
+      return getattr(_random, name)
+  real_random = _tms.random
+  _tms.random = _Rnd()
+  World.current.cleanups.append(lambda: setattr(_tms, 'random', real_random))
+  chain = [TimeoutSinkProvider(), ThriftMuxMessageSerializerSink.Builder(), SocketTransportSink.Builder()]
+  for a, b in zip(chain, chain[1:]):
+    a.next_provider = b
+  disp = MessageDispatcher(iface, chain[0], None, {
+      SinkProperties.Label: 'svc', SinkProperties.ServiceInterface: iface, SinkProperties.Endpoint: EP})
+  disp.Open()
+  advance(0.01)
+  pings = [d for d in drawn if d[0] == (30, 40)]
+  if not pings:
+    return set()        # this transport does not draw its ping period that way: nothing to aim at
+  due = pings[-1][1] + pings[-1][2]
+  advance(due - plan['lead_ms'] / 1000.0 - loop.now())
+  st_ = {'done': False}
+
+  def stall_fn(sock, data, idx):
+    if not st_['done'] and len(data) > plan['cut'] + 40:
+      st_['done'] = True
+      return (plan['cut'], plan['hold_ms'] / 1000.0)
+    return None
+  net.stall = stall_fn
+  text = 'p' * plan['size']
+  ar = disp.DispatchMethodCall('hi', (text,), {})
+  advance(plan['hold_ms'] / 1000.0 + plan['lead_ms'] / 1000.0 + 1.0)
+  if peer.bad or peer.leftover():
+    raise Violation(ID, 'bad-framing', 'a keep-alive ping fell due while a %d-byte frame was %d bytes into a blocked write: the peer cannot split the byte stream into frames (%r, trailing %r)' % (
+        plan['size'], plan['cut'], peer.bad, dict((k, len(v)) for k, v in peer.leftover().items())))
+  frames = [f for f in peer.frames if f['type'] == M.T_DISPATCH]
+  if len(frames) != 1 or f_bad(frames[0], text):
+    raise Violation(ID, 'payload-mismatch', 'ping during a blocked write: the peer decoded %d Tdispatch frames, args %r...' % (
+        len(frames), [str(f.get('args'))[:40] for f in frames]))
+  for f in peer.frames:
+    if f['type'] == M.T_PING and (f['tag'] != 1 or f['body']):
+      raise Violation(ID, 'ping-frame', 'Tping tag %d body %r' % (f['tag'], f['body']))
+  disp.Close()
+  settle()
+  return set(['ping due during a blocked write']) if st_['done'] else set()
+
+
+def f_bad(f, text):
+  return bool(f.get('decode_error')) or f.get('method') != 'hi' or list(f.get('args') or []) != [text]
+
+
 def execute(plan):
   with World(seed=0):
+    if plan['kind'] == 'pingrace':
+      nt = _exec_pingrace(plan)
+      return Outcome(nontrivial=sorted(nt) or None, classes=['pingrace'] + sorted(nt))
     if plan['kind'] == 'early':
       nt = _exec_early(plan)
       return Outcome(nontrivial=sorted(nt) or None, classes=['early', 'svc=' + plan['svc']] + sorted(nt))
